@@ -387,6 +387,13 @@ pub fn class_block(cls: &str, fallback: bool, len: usize, rng: &mut SmallRng) ->
             }
             b
         }
+        ("hufraw", fb) => {
+            // literals over 250 equally likely byte values: a Huffman table is built, but table + payload are not smaller
+            // than the literals themselves.  Kept blocks: a short run of such literals, repeated (the repeats are matches).
+            let unit = if fb { len } else { len.min(rng.gen_range(2000..6000)) };
+            let lit: Vec<u8> = (0..unit).map(|_| rng.gen_range(0..250u8)).collect();
+            (0..len).map(|i| lit[i % unit]).collect()
+        }
         ("nohuf", true) => gen_input("random", len, rng),
         ("nohuf", false) => {
             let mut v = gen_input("random", len, rng);
@@ -449,8 +456,8 @@ pub fn encgraph(args: &[String]) {
                     let fr = frames.last_mut().unwrap();
                     // two "huf" blocks in a row: the second one has the histogram of the first (a rotation of it), which is
                     // what makes the previous table eligible for treeless literals
-                    let prev_huf = fr.wanted.last().map(|w| w[0] == "huf").unwrap_or(false) && fr.data.len() >= BLOCK;
-                    if cls == "huf" && prev_huf {
+                    let prev_huf = fr.wanted.last().map(|w| w[0] == "huf" || w[0] == "hufraw" || w[0] == "nohuf").unwrap_or(false) && fr.data.len() >= BLOCK;
+                    if (cls == "huf" || cls == "hufraw") && prev_huf {
                         let prev = fr.data[fr.data.len() - BLOCK..].to_vec();
                         let mut b: Vec<u8> = prev[1000..].to_vec();
                         b.extend_from_slice(&prev[..1000]);
